@@ -80,7 +80,11 @@ theorem Scr.drawCellPlain_clean (c : DrawCfg) (s : Scr) (x y : Int) (hd : s.cell
     s.drawCellPlain c x y = (s, [], (s.cells.getContent x y).2.2.2) := by
   simp [Scr.drawCellPlain, hd]
 
-theorem Scr.drawCellPlain_dirty (c : DrawCfg) (s : Scr) (x y : Int) (hd : s.cells.dirty x y = true) :
+@[simp] theorem Scr.cellTextG_false (c : DrawCfg) (w x : Int) (m : Rune) (comb : List Rune) (width : Int) :
+    Scr.cellTextG c w x m comb width false = Scr.cellText c w x m comb width := by
+  simp [Scr.cellTextG]
+
+theorem Scr.drawCellPlain_dirty (c : DrawCfg) (hg : c.guardLocked = false) (s : Scr) (x y : Int) (hd : s.cells.dirty x y = true) :
     s.drawCellPlain c x y =
       ({ s with curstyle := resolveStyle s.style (s.cells.getContent x y).2.2.1,
                 cx := if (Scr.cellText c s.w x (s.cells.getContent x y).1 (s.cells.getContent x y).2.1 (s.cells.getContent x y).2.2.2).2 > 1
@@ -92,18 +96,19 @@ theorem Scr.drawCellPlain_dirty (c : DrawCfg) (s : Scr) (x y : Int) (hd : s.cell
           [Cmd.put (Scr.cellText c s.w x (s.cells.getContent x y).1 (s.cells.getContent x y).2.1 (s.cells.getContent x y).2.2.2).1
                    (Scr.cellText c s.w x (s.cells.getContent x y).1 (s.cells.getContent x y).2.1 (s.cells.getContent x y).2.2.2).2]),
        (Scr.cellText c s.w x (s.cells.getContent x y).1 (s.cells.getContent x y).2.1 (s.cells.getContent x y).2.2.2).2) := by
-  simp only [Scr.drawCellPlain, hd, not_true_eq_false, if_false, Scr.paint, resolveStyle]
-  by_cases hg : s.cy ≠ y ∨ s.cx ≠ x
-  · simp only [hg, if_true]; rfl
+  simp only [Scr.drawCellPlain, hd, not_true_eq_false, if_false, Scr.paint, resolveStyle, hg, Bool.false_and,
+    Scr.cellTextG_false]
+  by_cases hgo : s.cy ≠ y ∨ s.cx ≠ x
+  · simp only [hgo, if_true]; rfl
   · have hx : s.cx = x := by
       by_cases h : s.cx = x
       · exact h
-      · exact absurd (Or.inr h) hg
+      · exact absurd (Or.inr h) hgo
     have hy : s.cy = y := by
       by_cases h : s.cy = y
       · exact h
-      · exact absurd (Or.inl h) hg
-    simp only [hg, if_false, List.nil_append]
+      · exact absurd (Or.inl h) hgo
+    simp only [hgo, if_false, List.nil_append]
     cases s; simp_all
 
 end Tcell
@@ -297,11 +302,11 @@ theorem resolveStyle_valid (dflt st : Style) (h1 : dflt.attrs ≠ attrInvalid) (
   · intro h; apply h2; rw [h]
 
 /-- the dirty branch of one loop iteration (no bottom-right corner trick) -/
-theorem visit_dirty {c : DrawCfg} (hrw : RwOk c.rw) (hct : c.cornerTrick = false) {d : Option Style} {s : Scr} {t : ATerm}
+theorem visit_dirty {c : DrawCfg} (hrw : RwOk c.rw) (hct : c.Plain) {d : Option Style} {s : Scr} {t : ATerm}
     {x y : Int} (inv : PassInv c d s t x y) (hr : s.cells.inRange x y) (hd : s.cells.dirty x y = true) :
     VisitPost c d s t x y (s.visit c x y).1 (t.applyAll (s.visit c x y).2.1) (s.visit c x y).2.2 := by
   have hgc := getContent_wok hrw s.cells x y hr (inv.wok x y)
-  have hdc : s.drawCell c x y = s.drawCellPlain c x y := by simp [Scr.drawCell, hd, hct]
+  have hdc : s.drawCell c x y = s.drawCellPlain c x y := by simp [Scr.drawCell, hd, hct.ct]
   have hlock : (s.cells.cells x y).lock = false := by
     apply isDirty_true_unlocked; simpa [dirty, hr] using hd
   have hcw := inv.cw; have hch := inv.ch; have htw := inv.tw; have hth := inv.th
@@ -317,7 +322,7 @@ theorem visit_dirty {c : DrawCfg} (hrw : RwOk c.rw) (hct : c.cornerTrick = false
     rw [← hstyle]; apply resolveStyle_valid _ _ inv.valid.1
     have := inv.valid.2 x y; rw [hcst] at this; exact this
   -- explicit result of drawCell
-  have hdp := Scr.drawCellPlain_dirty c s x y hd
+  have hdp := Scr.drawCellPlain_dirty c hct.ng s x y hd
   rw [hgc] at hdp; simp only [htx, hstyle] at hdp
   -- the terminal just before the glyph is printed
   have hterm : t.applyAll ((if s.cy ≠ y ∨ s.cx ≠ x then [Cmd.goto x y] else []) ++
@@ -711,7 +716,7 @@ namespace Tcell
 open Buf
 
 /-- one loop iteration preserves the pass invariant, whatever the cell's state -/
-theorem visit_post {c : DrawCfg} (hrw : RwOk c.rw) (hct : c.cornerTrick = false) {d : Option Style} {s : Scr} {t : ATerm}
+theorem visit_post {c : DrawCfg} (hrw : RwOk c.rw) (hct : c.Plain) {d : Option Style} {s : Scr} {t : ATerm}
     {x y : Int} (inv : PassInv c d s t x y) (hr : s.cells.inRange x y) :
     VisitPost c d s t x y (s.visit c x y).1 (t.applyAll (s.visit c x y).2.1) (s.visit c x y).2.2 := by
   cases hd : s.cells.dirty x y
@@ -789,7 +794,7 @@ theorem visits_lt (rw : Rune → Int) (b : Buf) (y : Int) (hw : ∀ i j, 1 ≤ (
         · exact absurd hr h'
     · simp at h
 
-theorem drawRow_post {c : DrawCfg} (hrw : RwOk c.rw) (hct : c.cornerTrick = false) {d : Option Style} (y : Int) :
+theorem drawRow_post {c : DrawCfg} (hrw : RwOk c.rw) (hct : c.Plain) {d : Option Style} (y : Int) :
     ∀ (fuel : Nat) (x : Int) (s : Scr) (t : ATerm), 0 ≤ x → 0 ≤ y → y < s.h → PassInv c d s t x y →
       RowPost c d s t x y fuel (Scr.drawRow c y fuel x s).1 (t.applyAll (Scr.drawRow c y fuel x s).2) := by
   intro fuel
@@ -932,7 +937,7 @@ theorem drawRows_succ (c : DrawCfg) (fuel : Nat) (y : Int) (s : Scr) :
       else (s, []) := by
   simp only [Scr.drawRows]
 
-theorem drawRows_post {c : DrawCfg} (hrw : RwOk c.rw) (hct : c.cornerTrick = false) {d : Option Style} :
+theorem drawRows_post {c : DrawCfg} (hrw : RwOk c.rw) (hct : c.Plain) {d : Option Style} :
     ∀ (fuel : Nat) (y : Int) (s : Scr) (t : ATerm), 0 ≤ y → SyncInv c d s t →
       (s.cells.inRange s.cx s.cy → t.cur = some (s.cx, s.cy)) → (s.curstyle ≠ styleInvalid → t.pen = some s.curstyle) →
       (∀ d', d = some d' → d' = s.style) →
@@ -1134,7 +1139,7 @@ theorem draw_eq (c : DrawCfg) (s : Scr) :
       (r4.1, r1.2 ++ r2.2 ++ r3.2 ++ r4.2) := by
   simp only [Scr.draw]
 
-theorem draw_post {c : DrawCfg} (hrw : RwOk c.rw) (hct : c.cornerTrick = false) {d : Option Style} {s : Scr} {t : ATerm}
+theorem draw_post {c : DrawCfg} (hrw : RwOk c.rw) (hct : c.Plain) {d : Option Style} {s : Scr} {t : ATerm}
     (pre : BufOk c s t) (inv : s.clear = false → SyncInv c d s t) (hclear : s.clear = true → AllDirty s) :
     DrawPost c (if d = some s.style then d else none) s t (s.draw c).1 (t.applyAll (s.draw c).2) := by
   rw [draw_eq]; simp only
